@@ -21,9 +21,6 @@ E18 = 10**18
 # the ideal: the exact piecewise constant-liquidity curve, walked through the same initialised ticks (with the implementation's own
 # TickToSqrtPrice values as bucket edges) with the same spread factor, in exact rational arithmetic
 # ---------------------------------------------------------------------------------------------
-ULP = []   # filled by the ideal walks: per visited bucket, the input-token value of one ulp (10^-36) of the sqrt price
-
-
 def walk_ticks(pre, zfo):
     """(index, net liquidity, sqrt price) of the initialised ticks ahead of the price, in traversal order"""
     ts = [(int(t[0]), Fraction(int(t[2]), E18), Fraction(int(t[3]), E36)) for t in pre["ticks"]]
@@ -39,13 +36,10 @@ def ideal_exact_in(pre, zfo, amount, f):
     R = Fraction(amount)
     out = Fraction(0)
     steps = 0
-    ULP.clear()
     for (idx, net, target) in walk_ticks(pre, zfo):
         if R <= 0:
             break
         steps += 1
-        # what one unit of the 36th decimal of the sqrt price is worth in the input token inside this bucket
-        ULP.append(L / (target * target) / E36 if zfo else L / E36)
         if zfo:
             need = L * (1 / target - 1 / s) if target < s else Fraction(0)
         else:
@@ -78,12 +72,10 @@ def ideal_exact_out(pre, zfo, amount, f):
     B = Fraction(amount)
     tin = Fraction(0)
     steps = 0
-    ULP.clear()
     for (idx, net, target) in walk_ticks(pre, zfo):
         if B <= 0:
             break
         steps += 1
-        ULP.append(L / (min(target, s) ** 2) / E36 if zfo else L / E36)
         if zfo:
             avail = L * (s - target) if target < s else Fraction(0)
         else:
@@ -112,8 +104,8 @@ def ideal_exact_out(pre, zfo, amount, f):
 
 
 # ---------------------------------------------------------------------------------------------
-# the exact curve as potentials (sums over the positions of the exact amounts each holds at a price), and the proved lower half of
-# the rounding sandwich for exact-in swaps: theorem C03_exact_in_lower,
+# the exact curve as potentials (sums over the positions of the exact amounts each holds at a price), and the proved other half of
+# the rounding sandwich (exact_out_upper below is the mirror image, theorem C03_exact_out_upper); for exact-in swaps, theorem C03_exact_in_lower,
 #   (A)  (in - 1) (1 - f) - in 10^-18 - k (1 + 10^-18 + 2 10^-24) - U  <  I(c1)      I(c) = exact cost of moving the price c0 -> c
 #   (B)  O(c1)  <  out + 1 + k (10^-18 + 10^-36 + 2 10^-24)                          O(c) = exact proceeds of that move
 # k = number of iterations of the swap loop, U = sum over the iterations of the input-token value of one unit (10^-36) of the sqrt
@@ -144,18 +136,18 @@ def active_liq(st, t):
     return sum(int(p[4]) for p in st["pos"] if int(p[2]) <= t < int(p[3]))
 
 
-def loop_bounds(prev, st, zfo):
-    """(k, U) as described above, from the two states only"""
+def loop_bounds(prev, st):
+    """(k, U0, U1): bound on the loop iterations and on k * (value of one price unit in token0 / token1), from the two states only"""
     lo, hi = sorted((int(prev["tick"]), int(st["tick"])))
     between = [int(t[0]) for t in prev["ticks"] if lo - 1 <= int(t[0]) <= hi + 1]
     k = len(between) + 2
     pts = {lo, hi, lo - 1, hi + 1} | set(between) | {t - 1 for t in between}
     lmax = max(active_liq(prev, t) for t in pts)
     cmin = min(int(prev["sqrtp"]), int(st["sqrtp"]))
-    ulp = Fraction(lmax * E18, cmin * cmin) if zfo else Fraction(lmax, E18 * E36)
-    if 2 * ulp >= 1:
+    u0, u1 = Fraction(lmax * E18, cmin * cmin), Fraction(lmax, E18 * E36)
+    if 2 * max(u0, u1) >= 1:
         k += 101
-    return k, k * ulp
+    return k, k * u0, k * u1
 
 
 def exact_in_lower(prev, st, zfo, tin, tout, f):
@@ -164,7 +156,8 @@ def exact_in_lower(prev, st, zfo, tin, tout, f):
     c0, c1 = int(prev["sqrtp"]), int(st["sqrtp"])
     cost = vin(c1) - vin(c0)
     proceeds = vout(c0) - vout(c1)
-    k, U = loop_bounds(prev, st, zfo)
+    k, U0, U1 = loop_bounds(prev, st)
+    U = U0 if zfo else U1
     out = []
     paid_for = (tin - 1) * (1 - f) - Fraction(tin, E18) - k * CONSUME_ERR - U
     if not paid_for < cost:
@@ -173,6 +166,27 @@ def exact_in_lower(prev, st, zfo, tin, tout, f):
     if not proceeds < tout + 1 + k * PAY_ERR:
         out.append(("out_below_bound", "paid out %d, but the exact proceeds of the price move are %s (> out + 1 + k(1e-18+1e-36+2e-24), k<=%d)"
                     % (tout, float(proceeds), k)))
+    return out
+
+
+def exact_out_upper(prev, st, zfo, tin, tout, f):
+    """theorem C03_exact_out_upper:  O(c1) < out + 1 + k (1e-18 + 1e-36 + 2e-24) + U_out   and
+       (in - 1)(1 - f) - in 1e-18 - k (1 + 1e-18 + 2e-24) < I(c1)"""
+    v0, v1 = potentials(prev)
+    vin, vout = (v0, v1) if zfo else (v1, v0)
+    c0, c1 = int(prev["sqrtp"]), int(st["sqrtp"])
+    cost = vin(c1) - vin(c0)
+    proceeds = vout(c0) - vout(c1)
+    k, U0, U1 = loop_bounds(prev, st)
+    Uout = U1 if zfo else U0
+    out = []
+    if not proceeds < tout + 1 + k * PAY_ERR + Uout:
+        out.append(("in_above_bound", "the price moved further than delivering %d needs: exact proceeds of the move %s >= out + 1 + k(1e-18+1e-36+2e-24) + U "
+                    "(k<=%d, U<=%s)" % (tout, float(proceeds), k, float(Uout))))
+    charged_for = (tin - 1) * (1 - f) - Fraction(tin, E18) - k * CONSUME_ERR
+    if not charged_for < cost:
+        out.append(("in_above_bound", "charged %d, but the exact cost of the price move is %s (< (in-1)(1-f) - in*1e-18 - k(1+1e-18+2e-24), k<=%d)"
+                    % (tin, float(cost), k)))
     return out
 
 
@@ -229,10 +243,9 @@ def oracle(c, obs):
                     if left == 0:
                         if not tin >= ideal:
                             bad("in_lt_ideal", "charged %d < ideal %s for %d out" % (tin, float(ideal), tout))
-                        hi, _, left2 = ideal_exact_out(prev, zfo, tout + 3 * (k + 1), f)
-                        slack = 3 * (k + 2) + 3 * hi / E18 + 3 * sum(ULP) / (1 - f)
-                        if left2 == 0 and not tin <= hi + slack:
-                            bad("in_above_bound", "charged %d > ideal_in(B+k+1)+k+2+1e-18*in = %s (B=%d, k=%d)" % (tin, float(hi + slack), tout, k))
+                    # ... and not above it by more than the rounding explains: the two PROVED inequalities of C03_exact_out_upper
+                    for kind, what in exact_out_upper(prev, st, zfo, tin, tout, f):
+                        bad(kind, what)
                 # whenever a swap executes, its result equals the estimate for the same state
                 if est is not None:
                     if est["err"] != 0 or int(est["amt"]) != res:
@@ -460,6 +473,19 @@ def selftest(pairs, K, out):
         kinds4 = {v["rec"]["kind"] for v in oracle(c, o4)}
         if "out_below_bound" not in kinds4:
             out.mismatches.append({"what": "self-test: the oracle did not flag an amount out 150 below the exact proceeds (%s)" % sorted(kinds4), "case": None})
+    # an exact-out swap is charged 3 % + 150 more than it was (consistently): above the exact cost of the price move by more than the proved allowance
+    pr = next(((c5, o5) for c5, o5 in pairs if any(s["err"] == 0 and s["rop"]["k"] == "swap_out" and int(s["res"][0]) > 400 for s in o5["steps"])), None)
+    if pr is not None:
+        c5, o5 = pr[0], copy.deepcopy(pr[1])
+        st5 = next(s for s in o5["steps"] if s["err"] == 0 and s["rop"]["k"] == "swap_out" and int(s["res"][0]) > 400)
+        i_in = 0 if st5["rop"].get("zfo") else 1
+        x = int(st5["res"][0]) * 3 // 100 + 150
+        st5["res"][0] = str(int(st5["res"][0]) + x)
+        st5["bal"][3 + st5["rop"]["a"]][i_in] = str(int(st5["bal"][3 + st5["rop"]["a"]][i_in]) - x)
+        st5["bal"][0][i_in] = str(int(st5["bal"][0][i_in]) + x)
+        kinds5 = {v["rec"]["kind"] for v in oracle(c5, o5)}
+        if "in_above_bound" not in kinds5:
+            out.mismatches.append({"what": "self-test: the oracle did not flag an exact-out charge 3%% + 150 above the exact cost (%s)" % sorted(kinds5), "case": None})
     o3 = copy.deepcopy(o)
     st3 = next(s for s in o3["steps"] if s["rop"]["k"] in ("swap_in", "swap_out") and s["est"]["err"] == 0)
     st3["est"]["amt"] = str(int(st3["est"]["amt"]) + 1)
@@ -468,7 +494,7 @@ def selftest(pairs, K, out):
         out.mismatches.append({"what": "self-test: case_ok did not reject exactly the perturbed estimate (got %s %s)" % (bad, errs[:1]), "case": None})
     else:
         out.notes.append("self-test passed: oracle flags a doubled amount out (out_gt_ideal, estimate_ne_execute) and an amount out 150 below the exact proceeds "
-                         "(out_below_bound, the proved lower half); case_ok rejects an estimate off by one and accepts the original")
+                         "(out_below_bound, the proved lower half) and an exact-out charge 3% + 150 above the exact cost (in_above_bound, proved); case_ok rejects an estimate off by one and accepts the original")
 
 
 def run_cases(cases, model_ok, out, tag, K, selft=False):
@@ -572,12 +598,12 @@ def replay(path):
 
 
 SCOPE = ("full (C03_full_proved): per-step rounding lemmas; whole-swap never-above / never-below the exact curve in the path form (C03_exact_in_vs_ideal, "
-         "C03_exact_out_vs_ideal; token1-in with an explicit slack of 1/2*10^-36 token per step, refutation witness included); the lower half of the "
-         "rounding sandwich for exact-in swaps in the potential form with explicit allowances (C03_exact_in_lower / C03_exact_in_sandwich_lower: "
-         "(in-1)(1-f) - in*1e-18 - k(1+1e-18+2e-24) - U < exact cost of the price move, exact proceeds < out + 1 + k(1e-18+1e-36+2e-24), k iterations, "
-         "U = sum of the input-token value of one 1e-36 unit of sqrt price); estimate = execution (+ refuted converse); there-and-back "
-         "(C03_there_and_back_le, all states with the C07 invariant). Not proved: the lower half for exact-OUT swaps (oracle only, loosened margin); "
-         "the equivalence of the tick-by-tick ideal walk with the potentials (C03_error_bounded_walk_form)")
+         "C03_exact_out_vs_ideal; token1-in with an explicit slack of 1/2*10^-36 token per step, refutation witness included); the other half of the "
+         "rounding sandwich in the potential form with explicit allowances, exact-in (C03_exact_in_lower / _sandwich_lower: (in-1)(1-f) - in*1e-18 - "
+         "k(1+1e-18+2e-24) - U < exact cost of the price move, exact proceeds < out + 1 + k(1e-18+1e-36+2e-24)) and exact-out (C03_exact_out_upper / "
+         "_sandwich_upper: exact proceeds < out + 1 + k(1e-18+1e-36+2e-24) + U, (in-1)(1-f) - in*1e-18 - k(1+1e-18+2e-24) < exact cost), k loop iterations, "
+         "U = sum of the value of one 1e-36 unit of sqrt price; estimate = execution (+ refuted converse); there-and-back (C03_there_and_back_le, all "
+         "states with the C07 invariant). Not proved: the equivalence of the tick-by-tick ideal walk with the potentials (C03_error_bounded_walk_form)")
 EXPLANATION = ("Theorems over the Gallina model CL/{CLMath,CLSwap}.v (function-by-function transcription of swaps.go, swapstrategy/*.go, math/math.go) and the exact "
                "rational walk CL/Ideal.v; the model is tied to /repo by running the real swap route (full app) on generated pool states and comparing every response, "
                "the pool after every operation and the estimate queries; an independent oracle walks the exact curve with python Fractions through the "
